@@ -387,6 +387,11 @@ class Gen:
         return [self.gen(depth, typ, seclist=True) for _ in range(n)]
 
     def pubdiv(self):
+        b = self._pubdiv_pos()
+        # negative public divisors (Python: the remainder takes the sign of the divisor; repo fix 6154ebc)
+        return -b if self.rng.random() < 0.15 else b
+
+    def _pubdiv_pos(self):
         rng, l = self.rng, self.l
         r = rng.random()
         if r < 0.3:
@@ -1063,8 +1068,8 @@ def run_gcd(job):
                 out.append([int(v) for v in await mpc.output([mpc.inverse(x, y)])])
                 continue
             r = [mpc.gcd(x, y)] + list(mpc.gcdext(x, y))
-            if O_fits(math.lcm(a, b), l):
-                r.append(mpc.lcm(x, y))
+            if lcm_included(a, b, l):
+                r.append(mpc.lcm(x, y))          # also when the lcm needs up to 2l bits (it fits the field for l <= 16)
             if a >= 0 and b > 0 and math.gcd(a, b) == 1:
                 r.append(mpc.inverse(x, y))
             out.append([int(v) for v in await mpc.output(r)])
@@ -1275,7 +1280,7 @@ def gcd_check(job, results):
             bad.append((f'gcd({a},{b}) = {r[0]}, expected {g}', (a, b), r))
         if r[1] != g or r[2] * a + r[3] * b != r[1]:
             bad.append((f'gcdext({a},{b}) = {tuple(r[1:4])}: not (gcd, s, t) with s*a + t*b = gcd = {g}', (a, b), r))
-        if O_fits(math.lcm(a, b), l):
+        if lcm_included(a, b, l):
             if r[pos] != math.lcm(a, b):
                 bad.append((f'lcm({a},{b}) = {r[pos]}, expected {math.lcm(a, b)}', (a, b), r))
             pos += 1
@@ -1283,6 +1288,12 @@ def gcd_check(job, results):
             if r[pos] != pow(a, -1, b):
                 bad.append((f'inverse({a},{b}) = {r[pos]}, expected {pow(a, -1, b)}', (a, b), r))
     return bad
+
+
+def lcm_included(a, b, l):
+    """mpc.lcm is called when the result fits l bits, and for l <= 16 also when it needs up to 2l bits (the field has
+    l + sec_param + 2 bits: the value is representable; repo fix 37b49c0: abs() of the 2l-bit product was wrong)"""
+    return O_fits(math.lcm(a, b), l) or l <= 16
 
 
 def gcd_lines(job, results):
@@ -1297,7 +1308,7 @@ def gcd_lines(job, results):
         req += [f'gcd {l} {a} {b}', f'gcdext {l} {a} {b}']
         impl += [str(r[0]), f'{r[1]} {r[2]} {r[3]}']
         pos = 4
-        if O_fits(math.lcm(a, b), l):
+        if lcm_included(a, b, l):
             req.append(f'lcm {l} {a} {b}')
             impl.append(str(r[pos]))
             pos += 1
